@@ -627,8 +627,20 @@ class World(object):
             pair = (user, "" if pw != "" else "x")
         elif cred == "case":
             pair = (user.upper() if user.upper() != user else user.lower(), pw)
+        elif cred == "user_prefix":
+            # a proper prefix of the configured user name with the right password
+            pair = (user[:max(1, len(user) // 2)] if len(user) > 1 else user + "x", pw)
+        elif cred == "user_infix":
+            pair = (user[1:] if len(user) > 1 else user + "x", pw)
+        elif cred == "shifted":
+            # same concatenation of user and password, split at another place
+            pair = (user[:-1], user[-1:] + pw) if len(user) > 1 else (user + pw[:1], pw[1:] + "x")
+        elif cred == "user_is_both":
+            pair = (user + pw, "")
         else:
             pair = None
+        if pair is not None and cred != "ok" and pair == (user, pw):
+            pair = (pair[0] + "x", pair[1])      # the shape coincides with the configured pair: make it differ
         if pair is not None:
             headers["Authorization"] = "Basic " + base64.b64encode(("%s:%s" % pair).encode()).decode()
         kw = {"method": method, "headers": headers}
@@ -660,6 +672,10 @@ class World(object):
             return False
         if kind == "notification":
             self.handler.inter_mq.put({"type": "notification", "msg": {"error": 6, "sub_error": int(arg or 4), "data": b""}})
+        elif kind == "bad_update":
+            # an UPDATE the encoder cannot build (IPv6 address as NEXT_HOP)
+            self.handler.inter_mq.put({"type": "update", "msg": {"attr": {1: 0, 2: [], 3: "fe80::1", 5: 100},
+                                                              "nlri": ["10.78.%d.0/24" % int(arg or 1)], "withdraw": []}})
         else:
             self.handler.inter_mq.put({"type": "update", "msg": {"attr": {1: 0, 2: [], 3: "10.0.0.1", 5: 100},
                                                               "nlri": ["10.77.%d.0/24" % int(arg or 1)], "withdraw": []}})
